@@ -190,6 +190,7 @@ type c06Scen struct {
 	shuffle bool // canonical blocks not in block number order
 	sparse  bool // block numbers not contiguous
 	payload []byte
+	spray   uint64 // > 0: a binary spray block with that many copies (binary_spray batches only)
 	rs      uint64 // per-scenario random stream
 	note    string
 }
@@ -201,6 +202,7 @@ type c06Batch struct {
 	gaps   []time.Duration // sleep before retry k (k = 1..len)
 	scens  []c06Scen
 	lastOk bool // the last run's sends succeed
+	direct bool // the first peer IS the destination node: senderForDestination, deleteAfterwards = true
 }
 
 func (s *c06Scen) build(now time.Time) bpv7.Bundle {
@@ -231,6 +233,9 @@ func (s *c06Scen) build(now time.Time) bpv7.Bundle {
 	}
 	for _, e := range s.extras {
 		add(e.flags, bpv7.NewGenericExtensionBlock(e.data, e.typ))
+	}
+	if s.spray > 0 {
+		add(0, bpv7.NewBinarySprayBlock(s.spray))
 	}
 	// order and numbering of the extension blocks
 	if s.shuffle {
@@ -405,6 +410,39 @@ func c06Batches(seed uint64, thorough bool) []c06Batch {
 		out = append(out, b)
 	}
 
+	// (3b) direct delivery: the only peer is the bundle's destination (senderForDestination; the bundle
+	// is deleted after the successful transmission)
+	{
+		b := c06Batch{name: "direct", algo: "epidemic", peers: 1, gaps: make([]time.Duration, 2), lastOk: true, direct: true}
+		for i := 0; i < 16*scale; i++ {
+			s := c06Base(r, nid())
+			c06RandomBlocks(r, &s)
+			s.note = "direct"
+			b.scens = append(b.scens, s)
+		}
+		out = append(out, b)
+	}
+
+	// (3c) binary spray: the routing algorithm owns block type 192 (added or updated while forwarding)
+	for k := 0; k < 2; k++ {
+		b := c06Batch{name: "bspray", algo: "binary_spray", peers: 2, gaps: make([]time.Duration, 3), lastOk: true}
+		for i := 0; i < 12*scale; i++ {
+			s := c06Base(r, nid())
+			c06RandomBlocks(r, &s)
+			var ex []c06Extra
+			for _, e := range s.extras {
+				if e.typ != 192 {
+					ex = append(ex, e)
+				}
+			}
+			s.extras = ex
+			s.spray = []uint64{0, 1, 2, 8, 9}[r.intn(5)]
+			s.note = "bspray"
+			b.scens = append(b.scens, s)
+		}
+		out = append(out, b)
+	}
+
 	// (4) residence and lifetime: waiting between the retries; cumulative residence up to ~3 s
 	// (quick) / ~10 s (thorough).
 	gapSets := [][]time.Duration{
@@ -490,6 +528,12 @@ type c06State struct {
 	cleanAft bool
 }
 
+// coverage counters (printed in the closing note)
+var c06Cov struct {
+	sync.Mutex
+	tx, runs, runsSent, droppedAtReception, droppedAtRetry, keptUnsent int
+}
+
 func c06DtnMs(t time.Time) uint64 { return uint64(bpv7.DtnTimeFromTime(t)) }
 
 func c06RunBatch(b *c06Batch, dir string, only int) (lines []string, err error) {
@@ -498,7 +542,7 @@ func c06RunBatch(b *c06Batch, dir string, only int) (lines []string, err error) 
 			lines = append(lines, fmt.Sprintf("panic %s %v", b.name, strings.ReplaceAll(fmt.Sprint(r), " ", "_")))
 		}
 	}()
-	c, err := verifNewCore(dir, c06Node, RoutingConf{Algorithm: b.algo})
+	c, err := verifNewCore(dir, c06Node, RoutingConf{Algorithm: b.algo, SprayConf: SprayConfig{Multiplicity: 8}})
 	if err != nil {
 		return nil, err
 	}
@@ -511,7 +555,11 @@ func c06RunBatch(b *c06Batch, dir string, only int) (lines []string, err error) 
 	net := &verifNet{}
 	var mocks []*verifMockCLA
 	for i := 0; i < b.peers; i++ {
-		m := net.newCLA(fmt.Sprintf("p%d", i+1), bpv7.MustNewEndpointID(fmt.Sprintf("dtn://peer%d/", i+1)), false)
+		peer := fmt.Sprintf("dtn://peer%d/", i+1)
+		if b.direct && i == 0 {
+			peer = c06Dst
+		}
+		m := net.newCLA(fmt.Sprintf("p%d", i+1), bpv7.MustNewEndpointID(peer), false)
 		mocks = append(mocks, m)
 		verifPeerUp(c, m)
 	}
@@ -615,6 +663,30 @@ func c06RunBatch(b *c06Batch, dir string, only int) (lines []string, err error) 
 		}
 		return 0
 	}
+	c06Cov.Lock()
+	for _, st := range states {
+		c06Cov.tx += len(st.txs)
+		sentIn := map[int]bool{}
+		for _, t := range st.txs {
+			sentIn[t.run] = true
+		}
+		prevStored := true
+		for k, r := range st.runs {
+			c06Cov.runs++
+			switch {
+			case sentIn[k]:
+				c06Cov.runsSent++
+			case prevStored && !r.store && k == 0:
+				c06Cov.droppedAtReception++
+			case prevStored && !r.store:
+				c06Cov.droppedAtRetry++
+			case r.store:
+				c06Cov.keptUnsent++
+			}
+			prevStored = r.store
+		}
+	}
+	c06Cov.Unlock()
 	for _, st := range states {
 		if only != 0 && st.s.id != only {
 			continue
@@ -716,6 +788,15 @@ func TestVerifC06(t *testing.T) {
 	results := make([]res, len(batches))
 	sem := make(chan struct{}, 16)
 	var wg sync.WaitGroup
+	runOne := func(i, only int) {
+		dir := filepath.Join(scratch, fmt.Sprintf("c06-%d", i))
+		tb := time.Now()
+		lines, err := c06RunBatch(&batches[i], dir, only)
+		_ = os.RemoveAll(dir)
+		results[i] = res{i, lines, err, time.Since(tb)}
+	}
+	var later []int
+	onlyOf := map[int]int{}
 	for i := range batches {
 		only := 0
 		if onlyOp == "fwd" {
@@ -728,19 +809,24 @@ func TestVerifC06(t *testing.T) {
 				continue
 			}
 		}
+		if batches[i].algo != "epidemic" {
+			later = append(later, i)
+			onlyOf[i] = only
+			continue
+		}
 		wg.Add(1)
 		go func(i, only int) {
 			defer wg.Done()
 			sem <- struct{}{}
 			defer func() { <-sem }()
-			dir := filepath.Join(scratch, fmt.Sprintf("c06-%d", i))
-			tb := time.Now()
-			lines, err := c06RunBatch(&batches[i], dir, only)
-			_ = os.RemoveAll(dir)
-			results[i] = res{i, lines, err, time.Since(tb)}
+			runOne(i, only)
 		}(i, only)
 	}
 	wg.Wait()
+	// these register further block types with the process wide ExtensionBlockManager
+	for _, i := range later {
+		runOne(i, onlyOf[i])
+	}
 	nFwd := 0
 	var slowest time.Duration
 	hist := map[string]int{}
@@ -766,4 +852,6 @@ func TestVerifC06(t *testing.T) {
 	}
 	sort.Strings(hs)
 	fmt.Fprintf(w, "# C06 seed=%d thorough=%v hc=%d fwd=%d batches=%d %s slowest-batch=%.1fs\n", seed, thorough, nHc, nFwd, len(batches), strings.Join(hs, " "), slowest.Seconds())
+	fmt.Fprintf(w, "# C06 coverage: forward-runs=%d with-transmission=%d transmissions=%d dropped-at-reception=%d dropped-at-retry=%d kept-unsent=%d\n",
+		c06Cov.runs, c06Cov.runsSent, c06Cov.tx, c06Cov.droppedAtReception, c06Cov.droppedAtRetry, c06Cov.keptUnsent)
 }
